@@ -418,3 +418,30 @@ def mc(ctx):
 
 
 RULES.append(mc)
+
+
+@rule("R8", doc="the slot set a class is shrunk to is computed from class invocations, never from an e-node's own slot set (an e-node that migrated through a union spells its slots in another class's names)")
+def r8(ctx):
+    crate = ctx.lib()
+    sw = set(C.need("slot-set writer", C.slot_writers(crate)))
+    n = 0
+    for b in crate.fns():
+        if b.id in sw:
+            continue
+        v = mir.inline_view(crate, b, keep=tuple(C.short(x).split("::")[-1] for x in sw))
+        for c in C.calls_to(crate, v, sw):
+            if c.body is not v or len(c.args) < 3:
+                continue
+            n += 1
+            k = v.role_of_operand(c.args[2])
+            bad = []
+            for x in role_walk(k):
+                if isinstance(x, tuple) and x[0] == "call" and x[1] in ("slots", "all_slot_occurrences", "public_slot_occurrences", "private_slots") and "AppliedId" not in str(x[2]):
+                    bad.append("%s of %s" % (x[1], role_str(x[3][0])[:40] if x[3] else "?"))
+            ctx.check(not bad, "cap-from-invocations:" + C.fkey(b), "%s computes the kept slot set from invocations of the class" % C.short(b.id),
+                      "%s shrinks a class to a slot set computed from an e-node's own slots (%s): for a node that moved into the class through a union these are names of a different class, the intersection is empty and the class loses slots its terms depend on — eq() then equates invocations that differ in those arguments" % (C.short(b.id), "; ".join(bad)),
+                      where_of(v, c.bb))
+    ctx.floor("calls of the slot-set writer", n, 3)
+
+
+RULES.append(r8)
